@@ -4,6 +4,7 @@ import (
 	"encoding/hex"
 	"fmt"
 	"github.com/indexsupply/shovel/eth"
+	"github.com/indexsupply/shovel/shovel/config"
 	"github.com/indexsupply/shovel/wpg"
 	"math/big"
 	"strings"
@@ -145,7 +146,7 @@ func runABI(e *core.Env, prop string) error {
 		// C10 at the level a log is actually processed: the same valid, truncated and hostile data is also
 		// pushed through the real Integration.Insert (gate, Scan, row building, value conversion) - a log
 		// must yield rows or an error, never a crash of the indexing goroutine
-		var insertIG *dig.Integration
+		var insertIG, insertIGF *dig.Integration
 		nIndexed := 0
 		if prop == "C10" && nsel > 0 {
 			var leaves []*aty
@@ -162,6 +163,38 @@ func runABI(e *core.Env, prop string) error {
 			evc := ev
 			if ig, _, err := buildIG("ig1", "t1", nil, &evc, cols, "", nil); err == nil {
 				insertIG = &ig
+			}
+			// the same declaration with a FILTER on every selected input (short arguments: the decoded value, of
+			// whatever length the data claims, is compared with them)
+			evf := ev
+			if ig, _, err := buildIG("ig1f", "t1", nil, &evf, cols, core.Pick(r, []string{"and", "or"}), func(ci *config.Integration) {
+				var walk func(ins []dig.Input) []dig.Input
+				walk = func(ins []dig.Input) []dig.Input {
+					out := append([]dig.Input{}, ins...)
+					for i := range out {
+						out[i].Components = walk(out[i].Components)
+						if out[i].Column == "" {
+							continue
+						}
+						base := out[i].Type
+						if k := strings.Index(base, "["); k >= 0 {
+							base = base[:k]
+						}
+						switch {
+						case strings.HasPrefix(base, "uint"):
+							out[i].Filter = dig.Filter{Op: core.Pick(r, []string{"gt", "lt", "eq", "ne"}), Arg: []string{"7"}}
+						case strings.HasPrefix(base, "int"), base == "bool":
+						case base == "string":
+							out[i].Filter = dig.Filter{Op: core.Pick(r, []string{"eq", "ne", "contains"}), Arg: []string{"abc"}}
+						default:
+							out[i].Filter = dig.Filter{Op: core.Pick(r, []string{"eq", "ne", "contains", "!contains"}), Arg: []string{"0xdeadbeef"}}
+						}
+					}
+					return out
+				}
+				ci.Event.Inputs = walk(ci.Event.Inputs)
+			}); err == nil {
+				insertIGF = &ig
 			}
 		}
 		res := dig.VerifResult(ev)
@@ -197,6 +230,12 @@ func runABI(e *core.Env, prop string) error {
 					}
 					return "no-crash"
 				})
+				if insertIGF != nil && iv == "no-crash" {
+					iv = core.Protect(func() string {
+						insertIGF.Insert(e2eCtx("src1", 7), &mu, &fakeConn{}, []eth.Block{b})
+						return "no-crash"
+					})
+				}
 				e.Add(core.Case{Impl: iv, Spec: "no-crash", Key: fmt.Sprintf("c10-insert %s %s", ec.desc, core.Hex(data)), Nontrivial: hostile,
 					Tags: []string{"c10-insert-level", tag}, Detail: map[string]any{"event": ev, "data": core.Hex(data)}})
 			}
